@@ -487,7 +487,8 @@ Definition run_seq (hdr : line) (ops : wire) : wire :=
      a send call is bracketed by tickets  s_b (before the call) < s_a (after it returned);
      a cycle takes a ticket d_cs before graph evaluation (lifecycle observer) and the sink
      takes d_s when it sees the delivery;  pending_items samples are (ticket, n);
-     stop_b before request_stop, stop_r after it returned, stop_e after run() returned. *)
+     stop_b before request_stop, stop_r after it returned (main thread), stop_e after run() returned
+     (run thread): stop_r and stop_e are drawn by different threads and may come in either order. *)
 
 Record send_rec := mkSend { s_p : Z; s_k : Z; s_v : Z; s_blk : bool; s_res : Z; s_b : Z; s_a : Z }.
 Record deliv_rec := mkDeliv { d_t : Z; d_cs : Z; d_s : Z; d_vals : list Z }.
@@ -550,7 +551,7 @@ Definition last_deliv_send (h : history) : list send_rec :=
 Record HistoryOK (h : history) : Prop := mkHOK {
   (* the recording itself is well formed, the run did not fail *)
   ok_wf : (forall x, In x (h_sends h) -> s_b x < s_a x /\ (s_res x = 0 \/ s_res x = 1)) /\
-          NoDup (map s_v (h_sends h)) /\ h_err h = false /\ h_stop_b h < h_stop_r h /\ h_stop_r h < h_stop_e h;
+          NoDup (map s_v (h_sends h)) /\ h_err h = false /\ h_stop_b h < h_stop_r h /\ h_stop_b h < h_stop_e h;
   (* delivered exactly once, and only values whose send was accepted *)
   ok_once : NoDup (flat h) /\ forall v, In v (flat h) -> exists x, In x (h_sends h) /\ s_v x = v /\ s_res x = 1;
   (* in order, a prefix: an accepted value whose send returned before the send of a delivered value
@@ -565,6 +566,8 @@ Record HistoryOK (h : history) : Prop := mkHOK {
   (* accepted but undelivered never exceeds the capacity *)
   ok_cap : (forall tn, In tn (h_samples h) -> snd tn <= (if is_confl (h_pol h) then 1 else h_cap h) \/ (h_cap h = 0 /\ is_confl (h_pol h) = false)) /\
            (h_cap h > 0 -> is_confl (h_pol h) = false -> forall x, In x (acc_sends h) -> undelivered_at_least h x <= h_cap h);
+  (* ... in particular a burst (all pending values as one tuple) is never larger than the capacity *)
+  ok_batch : is_confl (h_pol h) = false -> h_cap h > 0 -> forall d, In d (h_delivs h) -> zlen (d_vals d) <= h_cap h;
   (* a non-blocking send is refused only when full or stopped; a blocking send fails only when stopped *)
   ok_refuse : forall r, In r (h_sends h) -> s_res r = 0 ->
               h_stop_b h < s_a r \/
@@ -587,7 +590,7 @@ Record HistoryOK (h : history) : Prop := mkHOK {
 (* ---- the acceptor: the same statement as a list of boolean checks ---- *)
 Definition chk_wf (h : history) : bool :=
   forallb (fun x => (s_b x <? s_a x) && ((s_res x =? 0) || (s_res x =? 1))) (h_sends h) &&
-  nodupb (map s_v (h_sends h)) && negb (h_err h) && (h_stop_b h <? h_stop_r h) && (h_stop_r h <? h_stop_e h).
+  nodupb (map s_v (h_sends h)) && negb (h_err h) && (h_stop_b h <? h_stop_r h) && (h_stop_b h <? h_stop_e h).
 Definition chk_once (h : history) : bool :=
   nodupb (flat h) && forallb (fun v => existsb (fun x => (s_v x =? v) && (s_res x =? 1)) (h_sends h)) (flat h).
 Definition chk_fifo (h : history) : bool :=
@@ -608,6 +611,8 @@ Definition chk_cap (h : history) : bool :=
   forallb (fun tn => (snd tn <=? (if is_confl (h_pol h) then 1 else h_cap h)) || ((h_cap h =? 0) && negb (is_confl (h_pol h)))) (h_samples h) &&
   (negb (0 <? h_cap h) || is_confl (h_pol h) ||
    forallb (fun x => undelivered_at_least h x <=? h_cap h) (acc_sends h)).
+Definition chk_batch (h : history) : bool :=
+  is_confl (h_pol h) || negb (0 <? h_cap h) || forallb (fun d => zlen (d_vals d) <=? h_cap h) (h_delivs h).
 Definition chk_refuse (h : history) : bool :=
   forallb (fun r => negb (s_res r =? 0) || (h_stop_b h <? s_a r) ||
                     (negb (s_blk r) && negb (is_confl (h_pol h)) && (0 <? h_cap h) && (h_cap h <=? queued_at_most h r)))
@@ -629,13 +634,14 @@ Definition chk_latest (h : history) : bool :=
 
 Definition pushq_history_ok (h : history) : bool :=
   chk_wf h && chk_once h && chk_fifo h && chk_times h && chk_cap h && chk_refuse h &&
-  chk_after_stop h && chk_all h && chk_latest h.
+  chk_after_stop h && chk_all h && chk_latest h && chk_batch h.
 
 (* the first failing check, for the replay report; 0 = none *)
 Definition first_failure (h : history) : Z :=
   if negb (chk_wf h) then 1 else if negb (chk_once h) then 2 else if negb (chk_fifo h) then 3
   else if negb (chk_times h) then 4 else if negb (chk_cap h) then 5 else if negb (chk_refuse h) then 6
-  else if negb (chk_after_stop h) then 7 else if negb (chk_all h) then 8 else if negb (chk_latest h) then 9 else 0.
+  else if negb (chk_after_stop h) then 7 else if negb (chk_all h) then 8 else if negb (chk_latest h) then 9
+  else if negb (chk_batch h) then 10 else 0.
 
 (* ---- decoding a recorded history (the driver's mode-2 output) ---- *)
 Definition parse_history (hdr : line) (ls : wire) : history :=
